@@ -34,11 +34,18 @@ def script_of(hist):
             arr = [arr[str(u)] for u in range(1, n + 1)]
         for u in range(1, n + 1):
             k = arr[u - 1]
-            if u in dropped or (k == 0 and cy["x"] != "aerr%d" % u) or (k == 0 and u == st["chr"]):
+            if u in dropped or (k == 0 and cy["x"] not in ("aerr%d" % u, "exec%d" % u)) or (k == 0 and u == st["chr"]):
                 continue
             if u == st["chr"]:
                 data = "".join(chr(ord('a') + (seq[u] + j) % 26) for j in range(k))
                 seq[u] += k
+            elif cy["x"] == "exec%d" % u:
+                # the first command of the burst hands the connection over to a new object (exec); the rest of the
+                # burst is already buffered and must still be served, one per cycle
+                data = "do me exec\r\n"
+                for j in range(max(k, 2)):
+                    seq[u] += 1
+                    data += "x u%dc%d\r\n" % (u, seq[u])
             elif cy["x"] == "aerr%d" % u:
                 # type-ahead of failing commands: every one ends in an uncaught error (at least two of them)
                 data = "do me err\r\n" * max(k, 2)
